@@ -5,6 +5,7 @@ package main
 func put(k, v int) *Node     { return &Node{Op: nPut, K: k, V: v} }
 func del(k int) *Node        { return &Node{Op: nDel, K: k} }
 func notify(e int) *Node     { return &Node{Op: nNotify, K: e} }
+func notifyN(e, rep int) *Node { return &Node{Op: nNotify, K: e, Rep: rep} }
 func throw() *Node           { return &Node{Op: nThrow} }
 func abort() *Node           { return &Node{Op: nAbort} }
 func local(b ...*Node) *Node { return &Node{Op: nLocal, Body: b} }
@@ -28,6 +29,26 @@ func setFee(v, fl int) *Node {
 }
 func L(n ...*Node) []*Node { return n }
 
+// tok marks calls to go through method tokens (CALLT) where the executing contract has one.
+func tok(ns ...*Node) []*Node {
+	var walk func(l []*Node)
+	walk = func(l []*Node) {
+		for _, n := range l {
+			if n.Op == nCall || n.Op == nNative {
+				n.Tok = true
+			}
+			walk(n.Body)
+			walk(n.Catch)
+			walk(n.Fin)
+			if n.Nat != nil {
+				walk(n.Nat.Cb)
+			}
+		}
+	}
+	walk(ns)
+	return ns
+}
+
 var none = []*Node{}
 
 func blockAcc(a, fl int) *Node {
@@ -47,6 +68,9 @@ func planOf(t []*Node) txPlan {
 	var walk func(l []*Node)
 	walk = func(l []*Node) {
 		for _, n := range l {
+			if n.Op == nNotify && n.Rep > 1 {
+				p.bulk += n.Rep
+			}
 			if n.Op == nNative {
 				tag++
 				n.Nat.Tag = tag
@@ -55,6 +79,16 @@ func planOf(t []*Node) txPlan {
 					p.committee = true
 				case natDeploy:
 					p.deploys = true
+				case natUpdate:
+					if n.Nat.Val != 0 {
+						p.nefUpdates++
+					}
+				case natRegCand:
+					p.registers++
+				case natUnregCand:
+					if n.Nat.Val != 0 {
+						p.candWitness = true
+					}
 				}
 			}
 			walk(n.Body)
@@ -66,6 +100,23 @@ func planOf(t []*Node) txPlan {
 		}
 	}
 	walk(t)
+	if p.candWitness { // the witness is a property of the transaction: every unregistration of the tree has it
+		var fix func(l []*Node)
+		fix = func(l []*Node) {
+			for _, n := range l {
+				if n.Op == nNative && n.Nat.Kind == natUnregCand {
+					n.Nat.Val = 1
+				}
+				fix(n.Body)
+				fix(n.Catch)
+				fix(n.Fin)
+				if n.Nat != nil {
+					fix(n.Nat.Cb)
+				}
+			}
+		}
+		fix(t)
+	}
 	return p
 }
 
@@ -74,6 +125,13 @@ func nat(kind, fl int, op NatOp) *Node {
 	return &Node{Op: nNative, Fl: fl, Nat: &op}
 }
 func update() *Node                  { return nat(natUpdate, 15, NatOp{}) }
+func updateNef(v int) *Node          { return nat(natUpdate, 15, NatOp{Val: v}) }
+func regCand() *Node                 { return nat(natRegCand, 15, NatOp{}) }
+func unregCand(w int) *Node          { return nat(natUnregCand, 15, NatOp{Val: w}) }
+func oracleReq(u int) *Node          { return nat(natOracleReq, 15, NatOp{Val: u}) }
+func oracleFinish() *Node            { return nat(natOracleFinish, 15, NatOp{}) }
+func lockDep(till int) *Node         { return nat(natLock, 15, NatOp{Val: till}) }
+func withdraw(to int) *Node          { return nat(natWithdraw, 15, NatOp{To: to}) }
 func destroy() *Node                 { return nat(natDestroy, 15, NatOp{}) }
 func designate(role, v int) *Node    { return nat(natDesignate, 15, NatOp{To: role, Val: v}) }
 func setWl(c, fee int) *Node         { return nat(natSetWl, 15, NatOp{To: c, Val: fee}) }
@@ -94,6 +152,10 @@ func bothWays(c int, ops func() []*Node) []*Node {
 }
 
 func one(t ...*Node) []txPlan { return []txPlan{planOf(t)} }
+
+// corpusHeight: index of the block a corpus case runs in (setup always makes the same number of blocks);
+// the Notary `till` values of the corpus are absolute heights.
+const corpusHeight = 6
 
 func corpus() [][]txPlan {
 	return [][]txPlan{
@@ -176,6 +238,60 @@ func corpus() [][]txPlan {
 		// reward's payment callback returns with the exception pending -> FAULT (one frame, not three)
 		one(call(2, 15, put(3, 1), try(L(try(L(throw()), nil, L(vote(1), notify(4))), put(1, 2)), L(notify(5)), nil))),
 		one(call(0, 15, try(L(try(L(throw()), nil, L(neoXfer(6, 1, nil), notify(4)))), L(notify(5)), nil))),
+		// --- NEO candidate (un)registration inside call trees (NEO cache: votesChanged, gasPerVoteCache) ---
+		one(call(0, 15, unregCand(1), try(L(call(1, 15, regCand(), vote(1), throw())), L(notify(1)), nil), vote(1), regCand(), vote(1))),
+		one(bothWays(1, func() []*Node { return L(unregCand(1), regCand()) })...),
+		one(call(0, 15, unregCand(0), vote(0)), regCand()),
+		one(call(0, 15, vote(1), try(L(call(1, 15, unregCand(1), neoXfer(1, 100, nil), throw())), none, nil), unregCand(1), neoXfer(1, 100, nil), regCand())),
+		one(call(1, 15, vote(1), unregCand(1), vote(0), try(L(call(2, 15, regCand(), throw())), none, L(notify(2))), vote(1))),
+		one(call(0, 15, try(L(try(L(throw()), nil, L(unregCand(1), notify(4)))), L(notify(5)), nil))),
+		// --- Oracle.request (request id counter, id lists per URL, GAS minted to the Oracle contract) ---
+		one(bothWays(1, func() []*Node { return L(oracleReq(0), oracleReq(1), oracleReq(0)) })...),
+		one(call(0, 15, oracleReq(0), try(L(call(1, 15, oracleReq(0), call(2, 15, oracleReq(1)), throw())), L(oracleReq(1)), nil), oracleReq(0), abort())),
+		one(oracleReq(0)),
+		one(call(0, 15, try(L(oracleFinish()), L(notify(1)), nil))),
+		one(try(L(oracleFinish()), none, nil)),
+		// --- ContractManagement.update with a new NEF ---
+		one(bothWays(2, func() []*Node { return L(updateNef(1), put(1, 1)) })...),
+		one(call(0, 15, updateNef(2), call(0, 15, put(1, 1), updateNef(1)), try(L(call(0, 15, updateNef(2), throw())), none, nil), update())),
+		one(call(1, 15, setWl(1, 9), updateNef(1), abort())),
+		// --- destroy of a contract that holds NEO and votes (Policy blocks it: its votes are revoked, the GAS reward
+		// is paid to the contract that is about to disappear) ---
+		one(call(3, 15, vote(1)), call(0, 15, try(L(call(3, 15, put(0, 1), destroy(), throw())), L(notify(1)), nil), call(3, 15, put(0, 2), destroy()), neoXfer(3, 1, nil))),
+		one(call(0, 15, neoXfer(3, 2, nil), try(L(call(3, 15, destroy())), none, L(notify(2))), neoXfer(3, 1, L(put(0, 1))), xfer(3, 0, 15, nil))),
+		one(call(3, 15, try(L(try(L(throw()), nil, L(destroy()))), L(notify(5)), nil))),
+		// --- Notary.lockDepositUntil / withdraw (contracts 2 and 3 start with a deposit whose till has passed) ---
+		one(call(2, 15, lockDep(6), lockDep(7), lockDep(6), try(L(call(3, 15, lockDep(9), throw())), none, nil), withdraw(6))),
+		one(bothWays(2, func() []*Node { return L(withdraw(7), deposit(minDeposit), withdraw(7)) })...),
+		one(call(3, 15, withdraw(1), withdraw(1)), call(2, 15, try(L(call(3, 15, deposit(minDeposit), throw())), none, nil), withdraw(2))),
+		one(call(1, 15, deposit(minDeposit), lockDep(5764), lockDep(5766), withdraw(6))),
+		one(call(1, 15, deposit(minDeposit), lockDep(5770), lockDep(5764), lockDep(9)), call(2, 15, lockDep(8), lockDep(7))),
+		one(call(2, 15, try(L(try(L(throw()), nil, L(withdraw(7)))), L(notify(5)), nil))),
+		one(withdraw(6), lockDep(9)),
+		// --- the limit of 512 notifications per execution counts what is in the list: rolled-back ones free their room ---
+		one(call(0, 15, notifyN(1, 512))),
+		one(call(0, 15, notifyN(1, 512), notify(2))),
+		one(call(0, 15, try(L(call(1, 15, notifyN(1, 510), throw())), L(notify(2)), nil), notifyN(3, 511))),
+		one(call(0, 15, try(L(call(1, 15, notifyN(1, 510), throw())), L(notify(2)), nil), notifyN(3, 512))),
+		one(call(0, 15, notifyN(1, 511), try(L(call(1, 15, notify(2), notify(3))), L(notify(4)), nil))),
+		one(call(0, 15, notifyN(1, 511), xfer(1, 0, 15, L(put(1, 1))), try(L(notify(2)), L(notify(3)), nil))),
+		one(call(0, 15, notifyN(1, 512), try(L(xfer(7, 0, 15, nil)), L(notify(3)), nil))),
+		one(call(0, 15, notifyN(1, 511), vote(1))),
+		one(call(1, 15, try(L(call(2, 15, notifyN(5, 300), call(3, 15, notifyN(6, 212)), throw())), none, L(notifyN(7, 256))), call(2, 15, notifyN(8, 256)))),
+		// --- the static call path (method tokens, CALLT): contracts 2,3 -> contracts 0,1 and natives ---
+		one(tok(call(2, 15, put(1, 2), notify(1), try(L(call(1, 15, put(1, 3), notify(2), call(0, 15, put(0, 9)), throw())), L(notify(3)), nil), put(2, 2)))...),
+		one(tok(call(3, 15, try(L(call(0, 7, put(1, 1), xfer(1, 0, 15, L(put(2, 2))), throw())), L(notify(1)), L(call(1, 5, ifp(0, throw())))), call(0, 5, put(0, 1))))...),
+		one(tok(call(2, 15, try(L(try(L(throw()), nil, L(call(1, 15, put(3, 3), notify(7)), put(3, 4)))), L(notify(8)), nil)))...),
+		one(tok(bothWays(2, func() []*Node { return L(setFee(700, 15), vote(1), oracleReq(0), deposit(minDeposit), updateNef(1), neoXfer(0, 1, L(put(3, 3)))) })...)...),
+		one(tok(call(0, 15, try(L(call(1, 15, xfer(2, 0, 15, L(put(1, 1))), regCand(), throw())), L(notify(1)), nil), withdraw(6), unregCand(1)))...),
+		one(tok(call(3, 15, put(0, 1), try(L(call(1, 15, blockAcc(7, 15), designate(8, 1), throw())), none, L(setWl(1, 5))), destroy()))...),
+		// regression cases of the finding blocked-list-stale-index (fixed by cf4871f): Policy.BlockAccountInternalDeferrable
+		// computed the position of the account in the sorted blocked-accounts cache BEFORE it revoked the account's votes;
+		// the GAS reward of the revocation is paid with a payment callback, and here the callback (the hook of contract 1,
+		// armed by key 4) makes contract 0 destroy itself, which inserts contract 0 into the list; contract 1 was then
+		// inserted at the stale position: unsorted list, isBlocked (binary search) missed accounts blocked in storage
+		one(call(1, 15, put(4, 1), destroy())),
+		one(call(1, 15, put(4, 1)), call(2, 15, try(L(call(1, 15, destroy(), throw())), L(notify(1)), nil), call(1, 15, destroy()))),
 		// the VM is reused: a predecessor that died with a pending exception / deep in pushed layers /
 		// by ABORT must not disturb a try-finally on the normal path, nor calls under TRY, in the next one
 		{planOf(L(call(0, 15, put(1, 1), call(1, 15, put(1, 1), throw())))), planOf(L(call(0, 15, try(L(call(1, 15, put(2, 2))), nil, L(put(3, 3))), notify(1))))},
